@@ -390,6 +390,64 @@ def _ufunc_compare(tree: ast.AST) -> None:
     ast.fix_missing_locations(tree)
 
 
+def _forward_constant_locals(tree: ast.AST) -> None:
+    """a local bound exactly once to a constant, to a module-level name that the function never binds, or to a dotted attribute of
+    one (`holds = _limit_reached`, `status = SolverStatus.Optimal`, `msg = "text"`), all of whose reads come later in the same
+    block (at any depth): the reads are the value itself.  (Rows of a dispatch table after unrolling.)"""
+    import copy as _copy
+    for fn in ast.walk(tree):
+        if not isinstance(fn, (ast.FunctionDef, ast.AsyncFunctionDef)):
+            continue
+        stores: Dict[str, int] = {}
+        for x in ast.walk(fn):
+            if isinstance(x, ast.Name) and isinstance(x.ctx, (ast.Store, ast.Del)):
+                stores[x.id] = stores.get(x.id, 0) + 1
+        params = {a.arg for a in fn.args.args + fn.args.kwonlyargs + fn.args.posonlyargs} | ({fn.args.vararg.arg} if fn.args.vararg else set()) | ({fn.args.kwarg.arg} if fn.args.kwarg else set())
+        has_scope_stmt = any(isinstance(x, (ast.Global, ast.Nonlocal)) for x in ast.walk(fn))
+        if has_scope_stmt:
+            continue
+
+        def value_ok(v):
+            if isinstance(v, ast.Constant):
+                return True
+            root = v
+            while isinstance(root, ast.Attribute):
+                root = root.value
+            return isinstance(root, ast.Name) and root.id not in stores and root.id not in params and root.id != "self" and (root is not v or True)
+
+        def process(block) -> bool:
+            for k, st in enumerate(block):
+                if isinstance(st, ast.Assign) and len(st.targets) == 1 and isinstance(st.targets[0], ast.Name) and stores.get(st.targets[0].id) == 1 \
+                        and st.targets[0].id not in params and "__" in st.targets[0].id and value_ok(st.value):
+                    v = st.targets[0].id
+                    loads = [x for x in ast.walk(fn) if isinstance(x, ast.Name) and x.id == v and isinstance(x.ctx, ast.Load)]
+                    later = {id(x) for b in block[k + 1:] for x in ast.walk(b)}
+                    if loads and all(id(x) in later for x in loads) and not any(isinstance(x, (ast.FunctionDef, ast.Lambda)) and any(isinstance(y, ast.Name) and y.id == v for y in ast.walk(x)) for b in block[k + 1:] for x in ast.walk(b)):
+                        class S(ast.NodeTransformer):
+                            def visit_Name(self, x):
+                                if x.id == v and isinstance(x.ctx, ast.Load):
+                                    return ast.copy_location(_copy.deepcopy(st.value), x)
+                                return x
+                        for j in range(k + 1, len(block)):
+                            block[j] = S().visit(block[j])
+                        del block[k]
+                        return True
+            for st in block:
+                for fld in ("body", "orelse", "finalbody"):
+                    sub = getattr(st, fld, None)
+                    if isinstance(sub, list) and sub and isinstance(sub[0], ast.stmt) and not isinstance(st, (ast.FunctionDef, ast.AsyncFunctionDef, ast.ClassDef)):
+                        if process(sub):
+                            return True
+                for h in getattr(st, "handlers", []) or []:
+                    if process(h.body):
+                        return True
+            return False
+        for _ in range(40):
+            if not process(fn.body):
+                break
+    ast.fix_missing_locations(tree)
+
+
 def _split_star_unpack(tree: ast.AST) -> None:
     """`*head, last = TABLE` / `first, *rest = TABLE` with TABLE a literal tuple / list (written there, or a module-level name bound
     once to one) is `head = (e0, .., e_{n-2}); last = e_{n-1}`: the rest of the pipeline then sees literal tables again."""
@@ -492,6 +550,22 @@ def _unroll_literal_loops(tree: ast.AST) -> None:
                             and isinstance(lp.iter.func.value, ast.Name) and lp.iter.func.value.id == tg_.id:
                         dict_tables.setdefault(id(lp), {})[tg_.id] = x.value
 
+    # loops whose (plain name) target is mentioned nowhere in the function outside the loop: each unrolled iteration may get a name
+    # of its own (`row__0`, `row__1`, ..), so that a record built per iteration is a single-binding local
+    private_target: Set[int] = set()
+    for fn in ast.walk(tree):
+        if not isinstance(fn, (ast.FunctionDef, ast.AsyncFunctionDef)):
+            continue
+        total: Dict[str, int] = {}
+        for x in ast.walk(fn):
+            if isinstance(x, ast.Name):
+                total[x.id] = total.get(x.id, 0) + 1
+        for lp in ast.walk(fn):
+            if isinstance(lp, ast.For) and isinstance(lp.target, ast.Name):
+                inside = sum(1 for x in ast.walk(lp) if isinstance(x, ast.Name) and x.id == lp.target.id)
+                if inside == total.get(lp.target.id, 0):
+                    private_target.add(id(lp))
+
     # module-level tuples / lists of literals bound once (dispatch tables)
     mod_tables: Dict[str, ast.AST] = {}
     if isinstance(tree, ast.Module):
@@ -556,11 +630,26 @@ def _unroll_literal_loops(tree: ast.AST) -> None:
                                 for b in n.body[:-1] + n.body[-1].body[:-1] for x in ast.walk(b)) \
                     and sum(1 for b in n.body for _ in ast.walk(b)) <= 120:
                 chain = list(n.orelse) if n.orelse else [ast.copy_location(ast.Pass(), n)]
-                for e in reversed(it.elts):
-                    bind = ast.copy_location(ast.Assign(targets=[_copy.deepcopy(n.target)], value=_copy.deepcopy(e)), n)
+                per_iter = id(n) in private_target and all(isinstance(e, ast.Call) for e in it.elts) and not n.orelse
+                for k_, e in reversed(list(enumerate(it.elts))):
+                    tgt_ = _copy.deepcopy(n.target)
                     pre = [_copy.deepcopy(b) for b in n.body[:-1]]
                     hit = [_copy.deepcopy(b) for b in n.body[-1].body[:-1]] or [ast.copy_location(ast.Pass(), n)]
-                    test = ast.copy_location(ast.If(test=_copy.deepcopy(n.body[-1].test), body=hit, orelse=chain), n)
+                    tst = _copy.deepcopy(n.body[-1].test)
+                    if per_iter:
+                        new_name = f"{n.target.id}__{k_}"
+
+                        class RN(ast.NodeTransformer):
+                            def visit_Name(self, x):
+                                if x.id == n.target.id:
+                                    return ast.copy_location(ast.Name(id=new_name, ctx=x.ctx), x)
+                                return x
+                        tgt_ = RN().visit(tgt_)
+                        pre = [RN().visit(b) for b in pre]
+                        hit = [RN().visit(b) for b in hit]
+                        tst = RN().visit(tst)
+                    bind = ast.copy_location(ast.Assign(targets=[tgt_], value=_copy.deepcopy(e)), n)
+                    test = ast.copy_location(ast.If(test=tst, body=hit, orelse=chain), n)
                     chain = [bind] + pre + [test]
                 if id(n) in tables:
                     dead.add(n.iter.id)
@@ -1610,6 +1699,8 @@ class Program:
                 self.modules[name] = mod
         self.digest = h.hexdigest()
         _dissolve_namedtuples([m.tree for m in self.modules.values()])
+        for mod in self.modules.values():
+            _forward_constant_locals(mod.tree)
         for mod in self.modules.values():
             self._index_module(mod)
 
